@@ -1,0 +1,132 @@
+// Copyright (c) The Thanos Community Authors.
+// Licensed under the Apache License 2.0.
+
+package exchange
+
+import (
+	"context"
+	"sync"
+
+	"github.com/efficientgo/core/errors"
+	"github.com/prometheus/prometheus/model/labels"
+
+	"github.com/thanos-community/promql-engine/execution/model"
+)
+
+// ErrDuplicateLabelSet is what the Prometheus engine reports when the result
+// of an expression contains two series with the same label set.
+var ErrDuplicateLabelSet = errors.New("vector cannot contain metrics with the same labelset")
+
+// duplicateLabelCheckOperator fails the query when two series of its input
+// that have the same label set both carry a sample. It is placed on top of
+// operators that remove the metric name, which can make series coincide, for
+// example rate({__name__=~"http_.+"}[5m]).
+//
+// If all series of the input have distinct label sets, which is known once
+// the series are loaded, the operator passes the input through untouched.
+type duplicateLabelCheckOperator struct {
+	next model.VectorOperator
+	// acrossSteps makes two series with the same labels clash when they have a
+	// sample at any two steps of the query, as it is the case for the result of
+	// functions over range vectors in the Prometheus engine. Otherwise they only
+	// clash when they have a sample at the same step.
+	acrossSteps bool
+
+	once sync.Once
+	// groups maps a series ID to the index of the group of series that share its
+	// label set, or to -1 if its label set is unique.
+	groups []int
+	// owners maps a group to the ID of the series that delivered a sample first
+	// (acrossSteps), or at the step marked in stamps (otherwise).
+	owners []uint64
+	stamps []uint64
+	epoch  uint64
+}
+
+func NewDuplicateLabelCheck(next model.VectorOperator, acrossSteps bool) model.VectorOperator {
+	return &duplicateLabelCheckOperator{next: next, acrossSteps: acrossSteps}
+}
+
+func (d *duplicateLabelCheckOperator) Explain() (me string, next []model.VectorOperator) {
+	return "[*duplicateLabelCheck]", []model.VectorOperator{d.next}
+}
+
+func (d *duplicateLabelCheckOperator) GetPool() *model.VectorPool { return d.next.GetPool() }
+
+func (d *duplicateLabelCheckOperator) Series(ctx context.Context) ([]labels.Labels, error) {
+	series, err := d.next.Series(ctx)
+	if err != nil {
+		return nil, err
+	}
+	d.once.Do(func() { d.init(series) })
+	return series, nil
+}
+
+func (d *duplicateLabelCheckOperator) init(series []labels.Labels) {
+	groupOf := make(map[uint64][]int, len(series))
+	d.groups = make([]int, len(series))
+	numGroups := 0
+	for i, s := range series {
+		d.groups[i] = -1
+		hash := s.Hash()
+		for _, j := range groupOf[hash] {
+			if !labels.Equal(series[j], s) {
+				continue
+			}
+			if d.groups[j] < 0 {
+				d.groups[j] = numGroups
+				numGroups++
+			}
+			d.groups[i] = d.groups[j]
+			break
+		}
+		groupOf[hash] = append(groupOf[hash], i)
+	}
+	if numGroups == 0 {
+		d.groups = nil
+		return
+	}
+	d.owners = make([]uint64, numGroups)
+	d.stamps = make([]uint64, numGroups)
+}
+
+func (d *duplicateLabelCheckOperator) Next(ctx context.Context) ([]model.StepVector, error) {
+	in, err := d.next.Next(ctx)
+	if err != nil || in == nil {
+		return in, err
+	}
+	var initErr error
+	d.once.Do(func() {
+		series, err := d.next.Series(ctx)
+		if err != nil {
+			initErr = err
+			return
+		}
+		d.init(series)
+	})
+	if initErr != nil {
+		return nil, initErr
+	}
+	if d.groups == nil {
+		return in, nil
+	}
+
+	for _, vector := range in {
+		// Marks are valid for the current step only, unless series clash across steps.
+		if !d.acrossSteps || d.epoch == 0 {
+			d.epoch++
+		}
+		for _, sampleID := range vector.SampleIDs {
+			group := d.groups[sampleID]
+			if group < 0 {
+				continue
+			}
+			if d.stamps[group] == d.epoch && d.owners[group] != sampleID {
+				return nil, ErrDuplicateLabelSet
+			}
+			d.stamps[group] = d.epoch
+			d.owners[group] = sampleID
+		}
+	}
+	return in, nil
+}
